@@ -37,7 +37,9 @@ ASSUMPTIONS = [
 TOLERANCES = {
     "descent at accepted iterates": "exact (<=) in the solver's own objective evaluation",
     "descent at the converged exit": "(8+4n)*eps*sum|terms of f|",
-    "honest flag": "||grad_ref(x_ret; p_requested)|| < tol*(1+1e-6) + 1e-13",
+    "honest flag": "||grad_ref(x_ret; p_requested)|| < tol*(1+1e-6) + 1e-13 + 8(n+2) eps ||sum|terms of the gradient||| "
+                   "(the last term is the floating-point resolution of the gradient itself; it matters only for the badly "
+                   "scaled family, where |A||x| ~ 1e8)",
     "unique minimiser (SPD, defaults)": "||x - A^-1 b|| <= 10*tol/lambda_min",
     "ref vs library objective value": "1e-11 * sum|terms|",
 }
@@ -175,6 +177,7 @@ def run_group(g, tier, seed, rec):
     from optimism import Objective
     import sksparse.cholmod as shim
     from mc.runner import exception_key
+    from mc.ref import objectives as RO
 
     fam, n = g["fam"], g["n"]
     f, params = _make_objective(fam, n)
@@ -346,8 +349,10 @@ def run_group(g, tier, seed, rec):
                 gr = rgrad(xr, d) if onp.all(onp.isfinite(xr)) else onp.array([onp.nan])
                 gn = float(onp.linalg.norm(gr))
                 rec.track_max("gradnorm_over_tol_at_success", gn / cval["tol"] if gn == gn else float("inf"))
-                if not gn < cval["tol"] * (1 + 1e-6) + 1e-13:
-                    sigs.append(("success-with-large-gradient", {"gradnorm": gn, "tol": cval["tol"]}))
+                allow = RO.grad_allowance(fam, xr, d) if onp.all(onp.isfinite(xr)) else 0.0
+                rec.track_max("gradient_rounding_allowance_over_tol", allow / cval["tol"])
+                if not gn < cval["tol"] * (1 + 1e-6) + 1e-13 + allow:
+                    sigs.append(("success-with-large-gradient", {"gradnorm": gn, "tol": cval["tol"], "allowance": allow}))
             # (5) well-conditioned strictly convex, default settings: success and the unique minimiser
             if ndev == 0 and plab["fam"] in ("quartic:spd1", "quartic:spd100"):
                 xs = onp.linalg.solve(d["A"], d["b"])
